@@ -150,6 +150,16 @@ def check_partition(spec, stream, assign, k):
             if d:
                 out.append(core.v_diff(PROP, "partition", "partial changed by reduction", d, p.toJson(), args))
                 break
+        # the reduction as Spark's aggregate / fill.sparksql perform it: fold the partials into zero() with +=
+        for order in itertools.permutations(range(k)):
+            accu = proto.zero()
+            for i in order:
+                accu += parts[i]
+            d = C.diff(accu.toJson(), exp)
+            if d:
+                out.append(core.v_diff(PROP, "partition", "partials folded with += differ from single fill", d,
+                                       accu.toJson(), dict(args, order=list(order))))
+                break
     except Exception as e:
         out.append(core.v_exc(PROP, "partition", "partition/reduce raised", e, args))
     return out
@@ -160,10 +170,10 @@ def bounds(spec, tier):
     if tier == "quick":
         return {"capA": 8 if d > 1 else 12, "nA": 2, "nB": 1, "nT": 1, "capT": 8, "nS": 2, "kS": 2, "capS": 6}
     if d == 1:
-        return {"capA": 12, "nA": 3, "nB": 2, "nT": 2, "capT": 6, "nS": 4, "kS": 3, "capS": 6}
+        return {"capA": 12, "nA": 3, "nB": 2, "nT": 2, "capT": 6, "nS": 3, "kS": 3, "capS": 5}
     if d == 2:
-        return {"capA": 12, "nA": 2, "nB": 2, "nT": 2, "capT": 5, "nS": 3, "kS": 3, "capS": 6}
-    return {"capA": 8, "nA": 2, "nB": 1, "nT": 1, "capT": 8, "nS": 3, "kS": 2, "capS": 5}
+        return {"capA": 12, "nA": 2, "nB": 1, "nT": 2, "capT": 4, "nS": 3, "kS": 3, "capS": 3}
+    return {"capA": 8, "nA": 2, "nB": 1, "nT": 1, "capT": 6, "nS": 2, "kS": 3, "capS": 4}
 
 
 def _tree(task):
@@ -229,7 +239,7 @@ def _tree(task):
 def trees(tier):
     t = S.D1() + S.D2()
     if tier != "quick":
-        t += S.D3_quick() + S.D3flow() + S.D3()
+        t += S.D3_quick() + S.D3flow() + S.D3()[::2]
     else:
         t += S.D3flow()[:12]
     seen, out = set(), []
